@@ -6,7 +6,8 @@ import PabuModel.Election
 namespace Pabu
 namespace Composition
 
-/-- distinct outcomes, first occurrences kept (list equality, as `res not in results`) -/
+/-- distinct outcomes, first occurrences kept.  Outcomes are allocations, i.e. sets of projects: they reach the model as
+    sorted id lists, so list equality here is the library's `set(res) != set(other)` test -/
 def distinct (rs : List (List Pid)) : List (List Pid) := dedup rs
 
 /-- `social_welfare_comparison`: the distinct outcomes of maximal total satisfaction -/
